@@ -125,6 +125,13 @@ class Ref(object):
             if l['t1'] == 0 or l['t2'] == 0:
                 return 'ValueError'
             return ''
+        if act == 'AugItem':
+            d = self.data(n).copy()
+            v = d[:, l['t1'] - 1, l['t2'] - 1] + 1.0
+            d[:, l['t1'] - 1, l['t2'] - 1] = v
+            d[:, l['t2'] - 1, l['t1'] - 1] = v
+            self.bufs[self.obj[n][0]] = d
+            return ''
         raise MachineryError('unknown action ' + act)
 
     def partition(self):
@@ -257,6 +264,9 @@ class MAAdapter(Adapter):
                 vec = np.array([7.0 * (i + 1) / 2.0 for i in range(w['L'])])
                 a[k1, k2] = vec
                 obs['set_both'] = bool(np.array_equal(a[k1, k2], vec) and np.array_equal(a[k2, k1], vec))
+            elif act == 'AugItem':
+                T = a.types
+                a[T[l['t1'] - 1], T[l['t2'] - 1]] += 1.0           # the statement a user writes
             elif act == 'GetItem':
                 T = a.types
                 k1 = T[l['t1'] - 1] if l['t1'] else 'nosuch'
